@@ -45,7 +45,7 @@ theorem token_re_normalisation_is_flag_scope :
       genTokenReSrc.normalized.format = pre ++ [40, 63, 115, 58, 46, 41, 43, 63] ++ post :=
   ⟨[37, 115, 45, 63, 92, 115, 42, 40],
    [41, 92, 115, 42, 45, 63, 37, 115, 124, 37, 115, 45, 63, 92, 115, 42, 40, 92, 119, 43, 41, 40, 63, 58, 92, 115, 43, 40,
-    40, 63, 58, 37, 118, 41, 43, 63, 41, 41, 63, 92, 115, 42, 45, 63, 37, 115], by decide, by decide⟩
+    40, 63, 58, 37, 115, 41, 43, 63, 41, 41, 63, 92, 115, 42, 45, 63, 37, 115], by decide, by decide⟩
 
 /-- **T4, all delimiters.** For every delimiter quadruple with an ASCII tag-right delimiter, the text
 `formTokenMatcher` builds (flag scope normalised) is the printed `tokenRe`.
